@@ -443,7 +443,12 @@ def check_group(ck, m, grp, label, impl_expect):
             is_up = f.get("impl_self_adt") == w["path"] and "impl_trait" not in f and f["name"] == "upcast"
             if is_from or is_up:
                 o = mir.Body(f).origin_local(0)
-                ck.ob("G8-upcast-is-bit-preserving", "%s/%s/%s" % (key0, wn, f["name"]), o[0] == "call" and o[1] == "cglue::trait_group::Opaquable::into_opaque" and o[2][0] == ("arg", 1),
+                direct = o[0] == "call" and o[1] == "cglue::trait_group::Opaquable::into_opaque" and o[2][0] == ("arg", 1)
+                # `From<With>` and `upcast` may be written through each other: delegation to the sibling (itself checked here) with `self`
+                sibling = o[0] == "call" and o[2] and o[2][0] == ("arg", 1) and len(o[2]) == 1 and (
+                    (is_from and o[1].endswith("::%s::<" % wn + o[1].split("::%s::<" % wn)[-1]) and o[1].endswith("::upcast")) or
+                    (is_up and o[1] in ("std::convert::From::from", "std::convert::Into::into")))
+                ck.ob("G8-upcast-is-bit-preserving", "%s/%s/%s" % (key0, wn, f["name"]), direct or sibling,
                       "%s::%s is not into_opaque(self)" % (wn, f["name"]))
         im = m.opaquable_impls.get(w["path"])
         ck.ob("G8-with-opaque-target-is-group", "%s/%s" % (key0, wn), im is not None and im[0] == grp.base["path"], "Opaquable for %s does not target the group %s" % (wn, grp.name))
